@@ -112,8 +112,9 @@ class RegressorChain(BaseRegressor):
             raise ValueError(msg)
 
         for index, algo in enumerate(self.__algos):
-            algo._fit(input_data, output_data)
-            output_data -= algo._predict(input_data)
+            # Some regressors modify their training data in place.
+            algo._fit(input_data.copy(), output_data.copy())
+            output_data = output_data - algo._predict(input_data)
             self.__algos[index] = algo
 
     def _predict(
